@@ -1,27 +1,615 @@
-//! C14 — stub, not built yet.
+//! C14 Failed mutations leave the store observably unchanged.
+//! Case = valid history prefix + a valid base request + a mistake injected into it (+ optional batch
+//! wrapping). Oracle: twin store that never saw the failed attempt.
 
 use crate::engine::*;
+use crate::hist::*;
+use crate::model::*;
+use crate::observe::*;
 use proptest::prelude::*;
+use serde::{Deserialize, Serialize};
+use stam::*;
 
 pub struct C14;
 
+#[derive(Clone, Debug, Serialize, Deserialize, PartialEq)]
+pub enum Mistake {
+    /// the k-th leaf of the target names an unknown resource / annotation / dataset / key / data
+    UnknownReferent { leaf: u8 },
+    /// the k-th leaf carrying an offset gets an invalid offset: 0 end beyond length, 1 begin beyond length,
+    /// 2 inverted, 3 end-aligned begin before the start
+    BadOffset { leaf: u8, kind: u8 },
+    /// an invalid datum inserted at position `pos` of the data list: 0 reference to unknown data id in a
+    /// live set, 1 new datum without key
+    BadDatum { pos: u8, kind: u8 },
+    /// the id of a live annotation (different content)
+    DuplicateId { pick: u16 },
+    /// complex selector nested inside a complex selector
+    Nested,
+    NoTarget,
+}
+
+#[derive(Clone, Debug, Serialize, Deserialize, PartialEq)]
+pub enum Other {
+    /// add_resource with the id of a live resource but another text
+    DupResource { pick: u16 },
+    /// add_dataset with the id of a live dataset, carrying new data
+    DupDataset { pick: u16, data: Vec<DSpec> },
+    /// insert_data into a live set without key and without id
+    InsertNoKey { set: u16 },
+    /// insert_data referring to an unknown data id without key
+    InsertUnknownId { set: u16 },
+}
+
+#[derive(Clone, Debug, Serialize, Deserialize)]
+pub struct Base {
+    pub with_id: bool,
+    pub by_handle: bool,
+    pub target: SelSpec,
+    pub data: Vec<ADSpec>,
+}
+
+#[derive(Clone, Debug, Serialize, Deserialize)]
+pub enum Request {
+    Annotate { base: Base, mistake: Mistake, batch_before: Vec<Base> },
+    Other(Other),
+}
+
+#[derive(Clone, Debug, Serialize, Deserialize)]
+pub struct Case {
+    pub hist: History,
+    pub req: Request,
+}
+
+fn base_strategy() -> BoxedStrategy<Base> {
+    let adspec = prop_oneof![
+        6 => (prop_oneof![4 => any::<u16>().prop_map(SetRef::Live), 2 => Just(SetRef::Fresh)], proptest::bool::weighted(0.4), 0u8..6, val_strategy(false))
+            .prop_map(|(set, with_id, key, val)| ADSpec::New { set, with_id, key, val }),
+        2 => (any::<u16>(), any::<u16>()).prop_map(|(set, data)| ADSpec::Existing { set, data }),
+    ];
+    (proptest::bool::weighted(0.5), any::<bool>(), selspec_strategy(3), proptest::collection::vec(adspec, 0..=3))
+        .prop_map(|(with_id, by_handle, target, data)| Base { with_id, by_handle, target, data })
+        .boxed()
+}
+
+fn mistake_strategy() -> BoxedStrategy<Mistake> {
+    prop_oneof![
+        3 => (0u8..4).prop_map(|leaf| Mistake::UnknownReferent { leaf }),
+        4 => (0u8..4, 0u8..4).prop_map(|(leaf, kind)| Mistake::BadOffset { leaf, kind }),
+        4 => (0u8..4, 0u8..2).prop_map(|(pos, kind)| Mistake::BadDatum { pos, kind }),
+        3 => any::<u16>().prop_map(|pick| Mistake::DuplicateId { pick }),
+        1 => Just(Mistake::Nested),
+        1 => Just(Mistake::NoTarget),
+    ]
+    .boxed()
+}
+
+fn leaves_mut<'a, 'b>(t: &'b mut SelectorBuilder<'a>) -> Vec<&'b mut SelectorBuilder<'a>> {
+    match t {
+        SelectorBuilder::MultiSelector(v) | SelectorBuilder::CompositeSelector(v) | SelectorBuilder::DirectionalSelector(v) => v.iter_mut().collect(),
+        other => vec![other],
+    }
+}
+
+const NOPE: &str = "no-such-item-anywhere";
+
+fn clone_sel<'a>(t: &SelectorBuilder<'a>) -> SelectorBuilder<'a> {
+    match t {
+        SelectorBuilder::ResourceSelector(r) => SelectorBuilder::ResourceSelector(r.clone()),
+        SelectorBuilder::AnnotationSelector(a, o) => SelectorBuilder::AnnotationSelector(a.clone(), o.clone()),
+        SelectorBuilder::TextSelector(r, o) => SelectorBuilder::TextSelector(r.clone(), o.clone()),
+        SelectorBuilder::DataSetSelector(s) => SelectorBuilder::DataSetSelector(s.clone()),
+        SelectorBuilder::DataKeySelector(s, k) => SelectorBuilder::DataKeySelector(s.clone(), k.clone()),
+        SelectorBuilder::AnnotationDataSelector(s, d) => SelectorBuilder::AnnotationDataSelector(s.clone(), d.clone()),
+        SelectorBuilder::MultiSelector(v) => SelectorBuilder::MultiSelector(v.iter().map(clone_sel).collect()),
+        SelectorBuilder::CompositeSelector(v) => SelectorBuilder::CompositeSelector(v.iter().map(clone_sel).collect()),
+        SelectorBuilder::DirectionalSelector(v) => SelectorBuilder::DirectionalSelector(v.iter().map(clone_sel).collect()),
+    }
+}
+
+/// inject the mistake; returns the class name of the request or None if the mistake does not apply
+fn inject(
+    m: &Machine,
+    mistake: &Mistake,
+    id: &mut Option<String>,
+    target: &mut Option<SelectorBuilder<'static>>,
+    data: &mut Vec<AnnotationDataBuilder<'static>>,
+    mtarget: &MSel,
+) -> Option<String> {
+    match mistake {
+        Mistake::UnknownReferent { leaf } => {
+            let t = target.as_mut()?;
+            let mut ls = leaves_mut(t);
+            let n = ls.len();
+            let i = *leaf as usize % n;
+            let l = &mut ls[i];
+            let kind;
+            **l = match &**l {
+                SelectorBuilder::TextSelector(_, off) => {
+                    kind = "text";
+                    SelectorBuilder::TextSelector(BuildItem::Id(NOPE.into()), off.clone())
+                }
+                SelectorBuilder::ResourceSelector(_) => {
+                    kind = "resource";
+                    SelectorBuilder::ResourceSelector(BuildItem::Id(NOPE.into()))
+                }
+                SelectorBuilder::AnnotationSelector(_, off) => {
+                    kind = "annotation";
+                    SelectorBuilder::AnnotationSelector(BuildItem::Id(NOPE.into()), off.clone())
+                }
+                SelectorBuilder::DataSetSelector(_) => {
+                    kind = "dataset";
+                    SelectorBuilder::DataSetSelector(BuildItem::Id(NOPE.into()))
+                }
+                SelectorBuilder::DataKeySelector(s, _) => {
+                    kind = "key";
+                    SelectorBuilder::DataKeySelector(s.clone(), BuildItem::Id(NOPE.into()))
+                }
+                SelectorBuilder::AnnotationDataSelector(s, _) => {
+                    kind = "data";
+                    SelectorBuilder::AnnotationDataSelector(s.clone(), BuildItem::Id(NOPE.into()))
+                }
+                _ => return None,
+            };
+            Some(format!("unknown-{}|leaf{}of{}", kind, i.min(2), n.min(3)))
+        }
+        Mistake::BadOffset { leaf, kind } => {
+            let t = target.as_mut()?;
+            let mleaves = mtarget.leaves();
+            let mut ls = leaves_mut(t);
+            let n = ls.len();
+            // pick among leaves carrying an offset
+            let cands: Vec<usize> = (0..n)
+                .filter(|i| matches!(&*ls[*i], SelectorBuilder::TextSelector(..) | SelectorBuilder::AnnotationSelector(_, Some(_))))
+                .collect();
+            if cands.is_empty() {
+                return None;
+            }
+            let i = cands[*leaf as usize % cands.len()];
+            // parent length
+            let plen: usize = match mleaves[i] {
+                MSel::Text { res, .. } => m.model.res(*res).text.len(),
+                MSel::Ann { ann, text: Some(_) } => m.model.single_text(*ann).map(|(_, b, e)| e - b)?,
+                _ => return None,
+            };
+            let bad = match kind % 4 {
+                0 => Offset::new(Cursor::BeginAligned(0), Cursor::BeginAligned(plen + 1 + (*leaf as usize))),
+                1 => Offset::new(Cursor::BeginAligned(plen + 1), Cursor::BeginAligned(plen + 2)),
+                2 => {
+                    if plen == 0 {
+                        Offset::new(Cursor::BeginAligned(1), Cursor::BeginAligned(0))
+                    } else {
+                        Offset::new(Cursor::BeginAligned(plen), Cursor::BeginAligned(plen - 1))
+                    }
+                }
+                _ => Offset::new(Cursor::EndAligned(-(plen as isize) - 1), Cursor::EndAligned(0)),
+            };
+            let rel;
+            let l = &mut ls[i];
+            **l = match &**l {
+                SelectorBuilder::TextSelector(r, _) => {
+                    rel = "resource";
+                    SelectorBuilder::TextSelector(r.clone(), bad)
+                }
+                SelectorBuilder::AnnotationSelector(a, _) => {
+                    rel = "relative";
+                    SelectorBuilder::AnnotationSelector(a.clone(), Some(bad))
+                }
+                _ => return None,
+            };
+            let kn = ["end-beyond", "begin-beyond", "inverted", "endaligned-before-start"][(*kind % 4) as usize];
+            Some(format!("bad-offset|{}|{}|leaf{}of{}", rel, kn, i.min(2), n.min(3)))
+        }
+        Mistake::BadDatum { pos, kind } => {
+            target.as_ref()?;
+            let p = (*pos as usize).min(data.len());
+            let live = m.model.live_sets();
+            if live.is_empty() {
+                return None;
+            }
+            let s = live[0];
+            let bad = match kind % 2 {
+                0 => AnnotationDataBuilder::new()
+                    .with_dataset(BuildItem::Handle(AnnotationDataSetHandle::new(s)))
+                    .with_id(BuildItem::Id(NOPE.into())),
+                _ => AnnotationDataBuilder::new()
+                    .with_dataset(BuildItem::Handle(AnnotationDataSetHandle::new(s)))
+                    .with_value(DataValue::Int(1)),
+            };
+            data.insert(p, bad);
+            Some(format!("bad-datum|{}|after{}valid", if kind % 2 == 0 { "unknown-data-id" } else { "no-key" }, p.min(2)))
+        }
+        Mistake::DuplicateId { pick: p } => {
+            target.as_ref()?;
+            let with_id: Vec<usize> = m.model.live_anns().into_iter().filter(|a| m.model.ann(*a).id.is_some()).collect();
+            if with_id.is_empty() {
+                return None;
+            }
+            let a = with_id[pick(*p, with_id.len())];
+            *id = m.model.ann(a).id.clone();
+            Some(format!("duplicate-annotation-id|{}data", data.len().min(2)))
+        }
+        Mistake::Nested => {
+            let t = target.take()?;
+            match t {
+                SelectorBuilder::MultiSelector(v) | SelectorBuilder::CompositeSelector(v) | SelectorBuilder::DirectionalSelector(v) => {
+                    if v.len() < 2 {
+                        return None;
+                    }
+                    let mut v = v;
+                    let last = v.pop().unwrap();
+                    let inner = SelectorBuilder::MultiSelector(vec![clone_sel(&last), last]);
+                    v.push(inner);
+                    *target = Some(SelectorBuilder::CompositeSelector(v));
+                    Some("nested-complex".into())
+                }
+                other => {
+                    *target = Some(other);
+                    None
+                }
+            }
+        }
+        Mistake::NoTarget => {
+            *target = None;
+            Some(format!("no-target|{}data", data.len().min(2)))
+        }
+    }
+}
+
+fn assemble(id: &Option<String>, target: &Option<SelectorBuilder<'static>>, data: &[AnnotationDataBuilder<'static>]) -> AnnotationBuilder<'static> {
+    let mut b = AnnotationBuilder::new();
+    if let Some(t) = target {
+        b = b.with_target(clone_sel(t));
+    }
+    if let Some(id) = id {
+        b = b.with_id(id.clone());
+    }
+    for d in data {
+        b = b.with_data_builder(d.clone());
+    }
+    b
+}
+
+/// differences between two observations, by category
+fn diff(before: &Obs, after: &Obs, dump_equal: bool) -> Vec<(&'static str, String)> {
+    let mut v = vec![];
+    if before.anns.len() != after.anns.len() {
+        v.push(("annotation", format!("{} -> {} annotations", before.anns.len(), after.anns.len())));
+    } else if before.anns != after.anns {
+        v.push(("annotation-content", "an existing annotation changed".to_string()));
+    }
+    if before.resources.len() != after.resources.len() {
+        v.push(("resource", format!("{} -> {} resources", before.resources.len(), after.resources.len())));
+    } else {
+        for (b, a) in before.resources.iter().zip(after.resources.iter()) {
+            if b.tsels.len() != a.tsels.len() || b.tsels_len != a.tsels_len {
+                let new: Vec<(usize, usize)> = a
+                    .tsels
+                    .iter()
+                    .filter(|t| !b.tsels.iter().any(|x| x.begin == t.begin && x.end == t.end))
+                    .map(|t| (t.begin, t.end))
+                    .collect();
+                v.push(("textselection", format!("resource {}: new text selections {:?} (count {} -> {})", a.handle, new, b.tsels_len, a.tsels_len)));
+            } else if b != a {
+                v.push(("resource-content", format!("resource {} changed", a.handle)));
+            }
+        }
+    }
+    if before.sets.len() != after.sets.len() {
+        v.push(("dataset", format!("{} -> {} datasets", before.sets.len(), after.sets.len())));
+    } else {
+        for (b, a) in before.sets.iter().zip(after.sets.iter()) {
+            if b.keys.len() != a.keys.len() {
+                v.push(("key", format!("set {}: {} -> {} keys", a.handle, b.keys.len(), a.keys.len())));
+            }
+            if b.data.len() != a.data.len() {
+                v.push(("data", format!("set {}: {} -> {} data items", a.handle, b.data.len(), a.data.len())));
+            }
+            if b.keys.len() == a.keys.len() && b.data.len() == a.data.len() && b != a {
+                v.push(("dataset-content", format!("set {} changed", a.handle)));
+            }
+        }
+    }
+    if v.is_empty() && before != after {
+        v.push(("observation", "observations differ".to_string()));
+    }
+    if v.is_empty() && !dump_equal {
+        v.push(("index", "index / id-map dump differs".to_string()));
+    }
+    v
+}
+
 impl Property for C14 {
-    type Case = u8;
+    type Case = Case;
     fn id(&self) -> &'static str {
         "C14"
     }
     fn rule(&self) -> String {
-        "not built yet".into()
+        "case = valid C01 history + a valid request (annotate with any selector kind and 0-3 data; or add_resource / add_dataset / insert_data) into which one mistake is injected (unknown resource/annotation/dataset/key/data at any leaf, out-of-range / inverted / before-start offset absolute or relative, invalid datum at any position of the data list, duplicate annotation / resource / dataset id, nested complex selector, missing target), optionally as the last element of an annotate_from_iter batch after 0-2 valid ones. Oracle: the call returns Err (Ok => case skipped, counted); the complete observation (all lookups of C01, all text selections of every resource, datasets/keys/data) and the raw index/id-map dump equal those of a twin store that replayed the same history (and the valid batch prefix) but never saw the failing request; then the corrected request is applied to both and the observations must again be equal. Non-trivial = the invalid part comes after at least one valid part in build order (invalid datum after a valid target, 2nd leaf invalid, duplicate id with target/data, batch position > 0); distinct = distinct case JSON.".into()
     }
-    fn cases(&self, _tier: Tier) -> u64 {
-        0
+    fn assumptions(&self) -> Vec<String> {
+        vec![
+            "for batches the documented behaviour is 'stops at the first error': earlier items take effect, the failing one must leave nothing".into(),
+            "a request the library accepts (Ok) is not invalid for this check: skipped and counted, never reported".into(),
+        ]
     }
-    fn strategy(&self, _tier: Tier) -> BoxedStrategy<u8> {
-        any::<u8>().boxed()
+    fn cases(&self, tier: Tier) -> u64 {
+        tier.pick(40_000, 1_000_000)
     }
-    fn run(&self, _case: &u8) -> Outcome {
-        let mut o = Outcome::new();
-        o.skip("not built");
-        o
+    fn strategy(&self, tier: Tier) -> BoxedStrategy<Case> {
+        let cfg = HistCfg {
+            max_ops: tier.pick(10, 25),
+            text_max: 12,
+            removal_weight: 2,
+            protect_weight: 0,
+            complex_weight: 2,
+            ..HistCfg::default()
+        };
+        let ann = (base_strategy(), mistake_strategy(), proptest::collection::vec(base_strategy(), 0..=2), proptest::bool::weighted(0.3))
+            .prop_map(|(base, mistake, before, batch)| Request::Annotate {
+                base,
+                mistake,
+                batch_before: if batch { before } else { vec![] },
+            });
+        let dspec = (proptest::bool::weighted(0.4), 0u8..6, val_strategy(false)).prop_map(|(with_id, key, val)| DSpec { with_id, key, val });
+        let other = prop_oneof![
+            2 => any::<u16>().prop_map(|pick| Other::DupResource { pick }),
+            2 => (any::<u16>(), proptest::collection::vec(dspec, 0..=3)).prop_map(|(pick, data)| Other::DupDataset { pick, data }),
+            1 => any::<u16>().prop_map(|set| Other::InsertNoKey { set }),
+            1 => any::<u16>().prop_map(|set| Other::InsertUnknownId { set }),
+        ]
+        .prop_map(Request::Other);
+        (history_strategy(cfg), prop_oneof![8 => ann, 2 => other])
+            .prop_map(|(hist, req)| Case { hist, req })
+            .boxed()
+    }
+
+    fn run(&self, case: &Case) -> Outcome {
+        let mut out = Outcome::new();
+        let mut m = Machine::new(false);
+        let mut twin = Machine::new(false);
+        for op in &case.hist.ops {
+            let s1 = m.apply(op);
+            let s2 = twin.apply(op);
+            if s1.skipped.is_some() {
+                continue;
+            }
+            if s1.panic.is_some() || s1.result.is_err() || s1.mismatch.is_some() || s2.panic.is_some() || s2.result.is_err() {
+                out.label("stopped_at_foreign_divergence");
+                return out;
+            }
+        }
+        let before = match catch(|| observe(&m.store)) {
+            Ok(o) => o,
+            Err(_) => {
+                out.label("stopped_at_foreign_divergence");
+                return out;
+            }
+        };
+        let class: String;
+        let mut corrected: Option<(AnnotationBuilder<'static>, AnnotationBuilder<'static>)> = None;
+        let result: Result<Result<(), String>, PanicInfo>;
+        match &case.req {
+            Request::Annotate { base, mistake, batch_before } => {
+                // valid batch prefix: applied to the twin directly, to the store through the batch call
+                let mut batch: Vec<AnnotationBuilder<'static>> = vec![];
+                for b in batch_before {
+                    let Some((builder, next, _)) = m.prepare_annotate(b.with_id, 0, b.by_handle, &b.target, &b.data) else { continue };
+                    // the twin gets an identical request
+                    let Some((tb, tnext, _)) = twin.prepare_annotate(b.with_id, 0, b.by_handle, &b.target, &b.data) else { continue };
+                    m.model = next;
+                    twin.model = tnext;
+                    match catch(|| twin.store.annotate(tb)) {
+                        Ok(Ok(_)) => {}
+                        _ => {
+                            out.label("stopped_at_foreign_divergence");
+                            return out;
+                        }
+                    }
+                    batch.push(builder);
+                }
+                // a base request whose referents do not exist in this history falls back to a plain text selector
+                let fallback = SelSpec::Text { res: 0, off: OffSpec { b: 9000, e: 30000, b_end: false, e_end: false } };
+                let base_target = if m.resolve_target(&base.target, base.by_handle).is_some() { &base.target } else { &fallback };
+                let Some((mut id, tb, mut dbs, _next, _h)) = m.prepare_annotate_parts(base.with_id, 0, base.by_handle, base_target, &base.data) else {
+                    out.skip("base request has no referent");
+                    return out;
+                };
+                let Some((tid, ttb, tdbs, _tnext, _)) = twin.prepare_annotate_parts(base.with_id, 0, base.by_handle, base_target, &base.data) else {
+                    out.skip("base request has no referent");
+                    return out;
+                };
+                let mtarget = _next.anns.last().unwrap().as_ref().unwrap().target.clone();
+                let good_id = id.clone();
+                let good_target = Some(clone_sel(&tb));
+                let good_data = dbs.clone();
+                let mut target = Some(tb);
+                let mut mistake = mistake.clone();
+                let c = match inject(&m, &mistake, &mut id, &mut target, &mut dbs, &mtarget) {
+                    Some(c) => c,
+                    None => {
+                        // not applicable to this request shape: fall back to an invalid datum, which always applies
+                        mistake = Mistake::BadDatum { pos: dbs.len() as u8, kind: 0 };
+                        if target.is_none() {
+                            target = Some(clone_sel(good_target.as_ref().unwrap()));
+                        }
+                        match inject(&m, &mistake, &mut id, &mut target, &mut dbs, &mtarget) {
+                            Some(c) => c,
+                            None => {
+                                out.skip("mistake not applicable to this request");
+                                return out;
+                            }
+                        }
+                    }
+                };
+                let mistake = &mistake;
+                class = c;
+                // non-triviality: something valid precedes the invalid part
+                let nleaves = mtarget.leaves().len();
+                out.nontrivial = match mistake {
+                    Mistake::UnknownReferent { leaf } => (*leaf as usize % nleaves) > 0,
+                    Mistake::BadOffset { .. } => class.contains("leaf1") || class.contains("leaf2"),
+                    Mistake::BadDatum { .. } => true,
+                    Mistake::DuplicateId { .. } => true,
+                    Mistake::Nested => true,
+                    Mistake::NoTarget => false,
+                } || !batch.is_empty();
+                let bad = assemble(&id, &target, &dbs);
+                let n_before = batch.len();
+                if batch.is_empty() {
+                    out.label("direct");
+                    result = catch(|| m.store.annotate(bad).map(|_| ()).map_err(|e| format!("{}", e)));
+                } else {
+                    out.label("batch");
+                    batch.push(bad);
+                    result = catch(|| m.store.annotate_from_iter(batch).map(|_| ()).map_err(|e| format!("{}", e)));
+                }
+                let _ = n_before;
+                corrected = Some((assemble(&good_id, &good_target, &good_data), assemble(&tid, &Some(ttb), &tdbs)));
+            }
+            Request::Other(o) => match o {
+                Other::DupResource { pick: p } => {
+                    let live = m.model.live_resources();
+                    if live.is_empty() {
+                        out.skip("no resource");
+                        return out;
+                    }
+                    let r = live[pick(*p, live.len())];
+                    let id = m.model.res(r).id.clone();
+                    let mut text: String = m.model.res(r).text.iter().collect();
+                    text.push_str("#different");
+                    class = "duplicate-resource-id".into();
+                    result = catch(|| {
+                        m.store
+                            .add_resource(TextResourceBuilder::new().with_id(id).with_text(text))
+                            .map(|_| ())
+                            .map_err(|e| format!("{}", e))
+                    });
+                }
+                Other::DupDataset { pick: p, data } => {
+                    let live = m.model.live_sets();
+                    if live.is_empty() {
+                        out.skip("no dataset");
+                        return out;
+                    }
+                    let s = live[pick(*p, live.len())];
+                    let id = m.model.set(s).id.clone();
+                    let mut b = AnnotationDataSetBuilder::new().with_id(id);
+                    for (i, d) in data.iter().enumerate() {
+                        let mut db = AnnotationDataBuilder::new()
+                            .with_key(BuildItem::Id(m.keyname(d.key).to_string()))
+                            .with_value(d.val.to_stam());
+                        if d.with_id {
+                            db = db.with_id(BuildItem::Id(format!("dupset-data-{}", i)));
+                        }
+                        b = b.with_data(db);
+                    }
+                    class = format!("duplicate-dataset-id|{}data", data.len().min(2));
+                    out.nontrivial = !data.is_empty();
+                    result = catch(|| m.store.add_dataset(b).map(|_| ()).map_err(|e| format!("{}", e)));
+                }
+                Other::InsertNoKey { set } | Other::InsertUnknownId { set } => {
+                    let live = m.model.live_sets();
+                    if live.is_empty() {
+                        out.skip("no dataset");
+                        return out;
+                    }
+                    let s = live[pick(*set, live.len())];
+                    let mut db = AnnotationDataBuilder::new()
+                        .with_dataset(BuildItem::Handle(AnnotationDataSetHandle::new(s)))
+                        .with_value(DataValue::Int(7));
+                    if matches!(o, Other::InsertUnknownId { .. }) {
+                        db = db.with_id(BuildItem::Id(NOPE.into()));
+                        class = "insert_data|unknown-id-no-key".into();
+                    } else {
+                        class = "insert_data|no-key".into();
+                    }
+                    result = catch(|| m.store.insert_data(db).map(|_| ()).map_err(|e| format!("{}", e)));
+                }
+            },
+        }
+        let cls0 = class.split('|').next().unwrap_or("").to_string();
+        out.label(&cls0);
+        match result {
+            Err(p) => {
+                out.fail("panic", format!("{}|{}", cls0, p.signature()), format!("request of class {} panicked at {}:{}: {}", class, p.file, p.line, p.msg));
+                return out;
+            }
+            Ok(Ok(())) => {
+                out.skip("request was accepted");
+                out.label(&format!("accepted:{}", cls0));
+                out.nontrivial = false;
+                return out;
+            }
+            Ok(Err(_)) => {}
+        }
+        // ---- after the failure: must equal the twin
+        let after = match catch(|| observe(&m.store)) {
+            Ok(o) => o,
+            Err(p) => {
+                out.fail("panic", format!("observe-after|{}|{}", cls0, p.signature()), format!("traversing the store after the failed request panicked: {}", p.msg));
+                return out;
+            }
+        };
+        let reference = if matches!(&case.req, Request::Annotate { batch_before, .. } if !batch_before.is_empty()) {
+            match catch(|| observe(&twin.store)) {
+                Ok(o) => o,
+                Err(_) => {
+                    out.label("stopped_at_foreign_divergence");
+                    return out;
+                }
+            }
+        } else {
+            before.clone()
+        };
+        let dump_equal = {
+            let a = m.store.verif_dump();
+            let b = twin.store.verif_dump();
+            let mut eq = a == b;
+            // dataset-level id maps and key->data maps
+            for s in &after.sets {
+                let x = m.store.dataset(AnnotationDataSetHandle::new(s.handle)).map(|d| d.as_ref().verif_dump());
+                let y = twin.store.dataset(AnnotationDataSetHandle::new(s.handle)).map(|d| d.as_ref().verif_dump());
+                if x != y {
+                    eq = false;
+                }
+            }
+            eq
+        };
+        out.checks += 1;
+        let diffs = diff(&reference, &after, dump_equal);
+        for (cat, detail) in &diffs {
+            out.fail("unchanged", format!("leak|{}|{}", cat, class), format!("after the failed request ({}): {}", class, detail));
+        }
+        if !diffs.is_empty() {
+            return out;
+        }
+        // ---- corrected request
+        if let Some((good, tgood)) = corrected {
+            let r1 = catch(|| m.store.annotate(good).map(|h| h.as_usize()).map_err(|e| format!("{}", e)));
+            let r2 = catch(|| twin.store.annotate(tgood).map(|h| h.as_usize()).map_err(|e| format!("{}", e)));
+            out.checks += 1;
+            match (r1, r2) {
+                (Ok(Ok(h1)), Ok(Ok(h2))) => {
+                    if h1 != h2 {
+                        out.fail("corrected", format!("handle|{}", class), format!("corrected request got handle {} but {} on a store that never saw the failed attempt", h1, h2));
+                    }
+                    let o1 = catch(|| observe(&m.store));
+                    let o2 = catch(|| observe(&twin.store));
+                    if let (Ok(o1), Ok(o2)) = (o1, o2) {
+                        if o1 != o2 {
+                            let d = diff(&o2, &o1, true);
+                            out.fail("corrected", format!("differs|{}", class), format!("after the corrected request the store differs from one that never saw the failed attempt: {:?}", d));
+                        }
+                    }
+                }
+                (Ok(Err(e)), Ok(Ok(_))) => out.fail("corrected", format!("fails|{}", class), format!("corrected request fails after the failed attempt ({}), but succeeds on a fresh twin", e)),
+                (Err(p), _) => out.fail("panic", format!("corrected|{}", p.signature()), format!("corrected request panicked: {}", p.msg)),
+                _ => {
+                    out.label("corrected_request_invalid_too");
+                }
+            }
+        }
+        out
     }
 }
